@@ -19,7 +19,6 @@ from __future__ import annotations
 
 import contextlib
 import copy
-import math
 
 import numpy as np
 import torch
